@@ -60,3 +60,10 @@ func init() {
 		Assumptions: []string{"see DESIGN §5 C04: composition level; xmlsig-vs-C14N agreement and RSA/SHA are outside the claim"},
 		BudgetQuick: 8 * time.Minute, BudgetThorough: 40 * time.Minute, CVC5First: true}
 }
+
+func init() {
+	for _, id := range []string{"C05", "C06", "C08"} {
+		specs[id] = &propSpec{ID: id, Harnesses: []string{"HarnessSSODecode", "HarnessSSOSig", "HarnessSSOACS", "HarnessSSOContent", "HarnessSSOFaults"}, Covers: []string{"sso.accepted", "sso.rejected"},
+			BudgetQuick: 8 * time.Minute, BudgetThorough: 40 * time.Minute}
+	}
+}
